@@ -105,6 +105,26 @@ Proof.
   split; [exact raise_is_other |]. split; [exact raise_is_other_run | exact raise_continues].
 Qed.
 
+(* sched(d) issued by a thread that is not a clock thread is relative to the physical present
+   (the logical now of the main time thread is the physical time read at the call): the add that
+   follows is at secs2beats(base) + d.  In particular the time base cannot be a stale scheduled time
+   left over from an earlier awake (e.g. of a task that raised). *)
+Theorem sched_from_non_clock_thread_relative_to_physical_now :
+  (forall k m evs, accepts k m evs = true -> mon_sched_base m evs = true) /\
+  (forall s base d s1 e s2, step s (ESchedCall base d) = Some s1 -> step s1 e = Some s2 ->
+     exists t k, e = EAdd t k /\ t == secs2beats (c_map s) base + d /\
+       c_q s2 = q_add t k (c_q s) (c_n s) /\ main_time_frozen s = false).
+Proof. split; [exact sched_base_accepts | exact sched_call_next_step]. Qed.
+
+(* main._in_awake_call (which freezes the main thread's logical time) is set exactly while the clock
+   thread is inside task.__awake__: it is reset on EVERY exit path -- plain return, numeric return,
+   StopStream, any other exception -- so it is never set while the thread waits or tests a loop *)
+Theorem main_time_frozen_only_inside_awake :
+  (forall s k r s', step s (EAwakeEnd k r) = Some s' ->
+     main_time_frozen s = true /\ main_time_frozen s' = false) /\
+  (forall s, main_time_frozen s = true -> exists nb t k, c_pc s = PAwake nb t k).
+Proof. split; [exact frozen_reset_on_every_exit | exact frozen_only_in_awake]. Qed.
+
 (* ========================= AppClock =========================================================== *)
 
 (* F13: the faithful model oversleeps.  Tick on an empty queue; a complete sched() lands between
@@ -206,6 +226,19 @@ Example ex_tempo_without_notify_rejected :
      EWaitBegin (Some (1 # 2)); ETempo (mkTM 4 (1 # 4) (1 # 2)); EWaitEnd CTimeout] = false.
 Proof. split; vm_compute; reflexivity. Qed.
 
+(* task 1 raises at 1/8; quiet; at physical 1/2 the main thread calls sched(1/4, task 2): the add must
+   be at 3/4 -- an add at 3/8 (= the raising task's scheduled time + 1/4: stale time base) is rejected *)
+Definition ex_after_raise (t : Q) : list event :=
+  [EWaitBegin None; ESchedCall 0 (1 # 8); EAdd (1 # 8) 1%Z; ENotify SSched; EWaitEnd CNotified; ETime 0;
+   EWaitBegin (Some (1 # 8)); EWaitEnd CTimeout; ETime (1 # 8); EPop (1 # 8) 1%Z; EAwakeEnd 1%Z RRaise;
+   EWaitBegin None; ESchedCall (1 # 2) (1 # 4); EAdd t 2%Z; ENotify SSched].
+Example ex_after_raise_base :
+  accepts_quiescent KSys tm_id (ex_after_raise (3 # 4)) = true /\
+  mon_sched_base tm_id (ex_after_raise (3 # 4)) = true /\
+  accepts KSys tm_id (ex_after_raise (3 # 8)) = false /\
+  mon_sched_base tm_id (ex_after_raise (3 # 8)) = false.
+Proof. repeat split; vm_compute; reflexivity. Qed.
+
 (* the hypotheses of ready_popped_in_time_then_fifo_order and of the resched step are met *)
 Example ex_pop_step :
   exists s s', run (init KSys tm_id) (firstn 11 ex_trace) = Some s /\
@@ -236,3 +269,5 @@ Print Assumptions clear_stop_cancel_all.
 Print Assumptions exception_isolated.
 Print Assumptions appclock_no_oversleep_refuted.
 Print Assumptions appclock_fixed_no_oversleep.
+Print Assumptions sched_from_non_clock_thread_relative_to_physical_now.
+Print Assumptions main_time_frozen_only_inside_awake.
